@@ -765,8 +765,10 @@ static void exec_action(gw_edge *e) {
     else if (!strcmp(a, "Subscribe")) {
         /* userdata of the subscription = its pattern (a static string), so that the handler can tell which subscription matched */
         static const char *tags[] = {"t1", "t2", "t.", "MOD_ST.", "CTX_STARTED", "CTX_STOPPED", "MOD_STARTED", "MOD_STOPPED", "CTX_TICK"};
+        /* a second userdata pointer per pattern (UdVals): another object, shown as <pattern>' by the handlers */
+        static const char *tags1[] = {"t1'", "t2'", "t.'", "MOD_ST.'", "CTX_STARTED'", "CTX_STOPPED'", "MOD_STARTED'", "MOD_STOPPED'", "CTX_TICK'"};
         const char *tag = NULL;
-        for (unsigned i = 0; i < sizeof tags / sizeof *tags; i++) if (!strcmp(tags[i], e->sargs[1])) tag = tags[i];
+        for (unsigned i = 0; i < sizeof tags / sizeof *tags; i++) if (!strcmp(tags[i], e->sargs[1])) tag = (e->nargs > 4 && e->args[4]) ? tags1[i] : tags[i];
         m_src_flags pf = e->sargs[2][0] == 'L' ? M_SRC_PRIO_LOW : e->sargs[2][0] == 'H' ? M_SRC_PRIO_HIGH : M_SRC_PRIO_NORM;
         if (e->nargs > 3 && e->args[3]) pf |= M_SRC_ONESHOT;
         /* M_SRC_DUP: the library keeps its own copy of the topic; ours is scribbled over and released right after the call */
